@@ -181,7 +181,7 @@ func TestExhaustive(t *testing.T) {
 	ev.LabelN("exhaustive_pairs", n)
 }
 
-var segPool = []string{"..", ".", "a", "b", "...", "..a", "a..", ".a", "", " ", "\\", "..\\", "%2e%2e", "..;", "é", "\x01", "~", "-", "a b", "....", ". ."}
+var segPool = []string{"..", ".", "a", "b", "...", "..a", "a..", ".a", "", " ", "\\", "..\\", "%2e%2e", "..;", "é", "\x01", "~", "-", "a b", "....", ". .", ".\x00.", "\x00..", "..\x00", "a\x00b", "\x00", ".\t.", "..\r"}
 
 func genURL() *rapid.Generator[string] {
 	structured := rapid.Custom(func(t *rapid.T) string {
@@ -201,7 +201,7 @@ func genURL() *rapid.Generator[string] {
 			rapid.SampledFrom([]string{"", "etc/passwd", "..", "/"}).Draw(t, "tail")
 	})
 	arbitrary := rapid.Custom(func(t *rapid.T) string {
-		bs := rapid.SliceOfN(rapid.ByteRange(1, 255), 0, 40).Draw(t, "bytes")
+		bs := rapid.SliceOfN(rapid.ByteRange(0, 255), 0, 40).Draw(t, "bytes") // every byte value: a Go string may hold NUL as well
 		return string(bs)
 	})
 	long := rapid.Custom(func(t *rapid.T) string {
